@@ -10,14 +10,15 @@ storage server, C22); repair itself is download (C02) followed by `upload` with 
 `VCfg.asIs` is the verifier as it was before the fix, `VCfg.repaired` the verifier as it is in /repo now (fix fb3513d =
 fixes/C45-verify-block-root.diff: the block hash tree root is taken from the validated share hash leaf).
 
-As built: 24 theorems (one `_partial`) — `verified_good_implies_all_valid` (+ `verified_good_counterexample` for the old verifier),
+As built: 25 theorems (one `_partial`) — `verified_good_implies_all_valid` (+ `verified_good_counterexample` for the old verifier),
 `healthy_iff_N_good`, `recoverable_iff_k_good`, `corrupt_shares_listed`, `noverify_believes_servers`,
 `recoverable_unhealthy_repair_attempted`, `repair_uses_original_parameters`, `repair_regenerates_identical_shares`,
 `post_repair_healthy_implies_N_good`, `repair_never_alters_good_shares`, `repair_output_is_encoder_output`,
 `repaired_share_passes_ct_stage`, `repaired_share_passes_block_hash_stage`, `repaired_share_passes_share_hash_stage`,
 `repaired_share_block_accepted`, `repaired_share_block_fetch_chain`, `validation_stages_keep_trees_closed`,
 `anchored_repaired_share_delivers_block`, `fresh_repaired_share_delivers_block`, `tail_stages_deliver_block`,
-`repaired_share_passes_ct_stage_any`, `known_chain_repaired_share_delivers_block`, `readable_from_repaired_shares_partial`. Further model parts: `checkServerShares` /
+`repaired_share_passes_ct_stage_any`, `known_chain_repaired_share_delivers_block`,
+`validation_stages_keep_trees_sibclosed`, `readable_from_repaired_shares_partial`. Further model parts: `checkServerShares` /
 `checkNoVerify`, `repairDecision`, `repairParams`, `gatherRepairResults`, `corruptLocators`. Driver lean/Drv/C45.lean
 (`veup`, `fmt`, `fmtlists`, `noverify`, `verify`, `repairdecision`, `repairparams`, `postrepair`, `repair`) ties each
 of them to the code. Only partially proved (monitor end to end): that the file can be read from the repaired shares alone. -/
@@ -29,7 +30,7 @@ of them to the code. Only partially proved (monitor end to end): that the file c
 | a check is healthy exactly when N distinct good shares are found | `healthy_iff_N_good` (+ the good list is duplicate-free and is exactly the share numbers some server's result lists) |
 | … recoverable exactly when at least k are | `recoverable_iff_k_good` |
 | repair using only the verify-cap produces shares that validate under the original read-cap | `repair_uses_original_parameters` (k, N from the cap, segment size from the VALIDATED UEB — seed C45-b) + `repair_regenerates_identical_shares` (a completed repair read re-publishes exactly the original cap, UEB, trees and blocks); neither uses the read key |
-| … so the file can be read from the repaired shares alone | PARTIAL: `repair_output_is_encoder_output` (repaired shares = the uploader's shares, parameters included), `repaired_share_passes_share_hash_stage`, `repaired_share_passes_block_hash_stage`, `repaired_share_passes_ct_stage`, `repaired_share_block_accepted` (completeness of every validation stage of `Share._satisfy_*` for such shares: share hash chain, block hash tree, crypttext hash tree, data block; C35 `tryBody_complete`), `repaired_share_block_fetch_chain` (block-hash stage then data stage chained on the node the first leaves behind), `validation_stages_keep_trees_closed` (`Closed`, the premise of the four acceptance theorems, is an invariant of every tree-writing stage whatever the share answers; `TreeOK` / `NodeInv` already are), `anchored_repaired_share_delivers_block` and `fresh_repaired_share_delivers_block` (one whole `_get_satisfaction` pass threaded through all eight stages, for a share already anchored and for a share seen for the first time: a repaired share is answered with exactly the published block; helper `tail_stages_deliver_block`), `readable_from_repaired_shares_partial` (one share set; a read over it writes only a prefix of the file and `done` ⇒ the file). Missing links named there: composing all four stage theorems along one whole `satisfy` run and over a fetch history (the two block-tree stages are chained: `repaired_share_block_fetch_chain`; closedness of every tree is a proved stage invariant — `validation_stages_keep_trees_closed` — and one whole pass is threaded through `runStages` for an already anchored share — `anchored_repaired_share_delivers_block` — for a share seen for the first time — `fresh_repaired_share_delivers_block` — and for a new share whose chain other shares already supplied — `known_chain_repaired_share_delivers_block`; what is missing is the induction over the per-segment history (`fetchSegment` over k shares) that re-establishes the premises of those two theorems for every pass), decoding (`Tahoe.C36.immutable_any_k_blocks_decode_rs256`), termination (C03/C46); end to end this clause stays with the monitor (read from repaired shares only) |
+| … so the file can be read from the repaired shares alone | PARTIAL: `repair_output_is_encoder_output` (repaired shares = the uploader's shares, parameters included), `repaired_share_passes_share_hash_stage`, `repaired_share_passes_block_hash_stage`, `repaired_share_passes_ct_stage`, `repaired_share_block_accepted` (completeness of every validation stage of `Share._satisfy_*` for such shares: share hash chain, block hash tree, crypttext hash tree, data block; C35 `tryBody_complete`), `repaired_share_block_fetch_chain` (block-hash stage then data stage chained on the node the first leaves behind), `validation_stages_keep_trees_closed` and `validation_stages_keep_trees_sibclosed` (`Closed` and `SibClosed`, the premises of the acceptance and whole-pass theorems, are invariants of every tree-writing stage whatever the share answers; `TreeOK` / `NodeInv` already are), `anchored_repaired_share_delivers_block` and `fresh_repaired_share_delivers_block` (one whole `_get_satisfaction` pass threaded through all eight stages, for a share already anchored and for a share seen for the first time: a repaired share is answered with exactly the published block; helper `tail_stages_deliver_block`), `readable_from_repaired_shares_partial` (one share set; a read over it writes only a prefix of the file and `done` ⇒ the file). Missing links named there: composing all four stage theorems along one whole `satisfy` run and over a fetch history (the two block-tree stages are chained: `repaired_share_block_fetch_chain`; closedness of every tree is a proved stage invariant — `validation_stages_keep_trees_closed` — and one whole pass is threaded through `runStages` for an already anchored share — `anchored_repaired_share_delivers_block` — for a share seen for the first time — `fresh_repaired_share_delivers_block` — and for a new share whose chain other shares already supplied — `known_chain_repaired_share_delivers_block`; what is missing is the induction over the per-segment history (`fetchSegment` over k shares) that re-establishes the premises of those two theorems for every pass), decoding (`Tahoe.C36.immutable_any_k_blocks_decode_rs256`), termination (C03/C46); end to end this clause stays with the monitor (read from repaired shares only) |
 | … and it never alters existing good shares | `repair_never_alters_good_shares` (abstract storage behaviour; refinement by the storage server is C22) |
 | a recoverable, unhealthy file gets a repair attempt, whatever the number of servers holding the good shares (seed C45-d) | `recoverable_unhealthy_repair_attempted` |
 | the post-repair results describe the grid after the repair (seed C45-c) | `post_repair_healthy_implies_N_good` |
@@ -376,6 +377,32 @@ example (cap : Cap H) : Closed (Node.init H cap).shareTree ∧ Closed (Node.init
     ∀ sh m, Closed ((Node.init H cap).blockTree sh m) :=
   ⟨newTree_closed _, by intro i _ h; exact absurd (get_of_ge (by simp [Node.init])) h,
    fun sh m => by simp [Node.blockTree, Node.init]; exact newTree_closed _⟩
+
+/-- **validation_stages_keep_trees_sibclosed**: `SibClosed` (every held non-root node has its sibling held) — the
+    other premise of the whole-pass theorems, which makes a held leaf need no further hashes — is an invariant of every
+    tree-writing stage of `Share._get_satisfaction` as well, whatever the share answers. A fresh node's trees are
+    sibling-closed (`newTree_sibClosed`). -/
+theorem validation_stages_keep_trees_sibclosed (E : Env H) (cfg : Cfg) (prm : Params) (ser : UEB H → Bytes)
+    (encode : Nat → Bytes → Nat → Bytes) (ct : Bytes) (sz : Sizes) (S : Setup E cfg prm ser encode ct sz)
+    (pick : List Nat → Nat) (cap : Cap H) (shnum segnum : Nat) (v : View H) (nd : Node H) :
+    (SibClosed nd.shareTree → SibClosed nd.ctTree →
+      SibClosed (stageUEB E cap v nd).2.shareTree ∧ SibClosed (stageUEB E cap v nd).2.ctTree) ∧
+    (SibClosed nd.shareTree → SibClosed (stageShareTree E cfg pick cap shnum v nd).2.shareTree) ∧
+    (nd.ctTree.length % 2 = 1 → SibClosed nd.ctTree → SibClosed (stageCtHashes E cfg pick segnum v nd).2.ctTree) ∧
+    (∀ u, nd.known = some (u, sz) → SibClosed (nd.blockTree shnum sz.numSegs) →
+      SibClosed ((stageBlockRoot E cfg pick cap shnum nd).2.blockTree shnum sz.numSegs) ∧
+      ∀ T, TreeOK E.ops T (nd.blockTree shnum sz.numSegs) →
+        SibClosed ((stageBlockHashes E cfg pick shnum segnum v nd).2.blockTree shnum sz.numSegs) ∧
+        (segnum < sz.numSegs → T.length = 2 * roundupPow2 sz.numSegs - 1 →
+          SibClosed ((stageData E cfg pick shnum segnum v nd).2.blockTree shnum sz.numSegs))) := by
+  refine ⟨fun hs hc => stageUEB_keeps_sibClosed E cap v nd hs hc,
+    fun hs => stageShareTree_keeps_sibClosed S.strict pick cap shnum v nd hs,
+    fun hodd hc => stageCtHashes_keeps_sibClosed S.strict pick segnum v nd hodd hc, ?_⟩
+  intro u hk hcl
+  refine ⟨stageBlockRoot_keeps_sibClosed S.strict pick cap shnum nd hk hcl, ?_⟩
+  intro T hok
+  exact ⟨stageBlockHashes_keeps_sibClosed S.strict pick shnum segnum v nd hk hok hcl,
+    fun hseg hlen => stageData_keeps_sibClosed S.strict pick shnum segnum v nd hk hok hseg hlen hcl⟩
 
 /-- **repaired_share_passes_ct_stage_any**: the crypttext-hash stage lets a repaired share through whether or not the
     segment's crypttext leaf is already held — not yet held: `repaired_share_passes_ct_stage`; already held (the usual
